@@ -4,6 +4,7 @@
 (* configuration went through the real parser.                              *)
 (*  {"ev":"in","svcs":[..],"isolate":B,"who":S,"proto":N,"dport":N,          *)
 (*   "variant":V,"flow":B,"friends":"both"|"none","totun":B,"panic":B}                               *)
+(*  {"ev":"in",...,"variant":"icmp-quote","proto":58,"dport":0,"flow":B (local host pinged who),"kind":S,"what":S,"hist":S,"icmp":text} *)
 (*  {"ev":"out","isolate":B,"srcisme":B,"dst":S,"proto":N,"tomesh":B}        *)
 (*  {"ev":"policy","svcs":[..],"who":S,"proto":N,"port":N,"allowed":B}       *)
 (*       return value of CheckInboundTrafficPolicy                           *)
@@ -18,8 +19,19 @@ TraceInit == l = 1 /\ Init
 (* variant "exthdr": the packet of an "ok" case with IPv6 extension headers in front of its transport header.     *)
 (* A router may or may not look behind them (the code as it is does not: such a packet matches no service);       *)
 (* the property only says when a packet may be handed on: if a service admits ITS protocol and ITS port.         *)
+(* variant "icmp-quote": a genuine, correctly sealed ICMPv6 message of `who` that quotes a packet (see CaseIcmp in     *)
+(* TrafficPolicy).  Ev.flow says whether the local host had sent an ICMPv6 packet to `who` before; what the message   *)
+(* quotes and what happened on the quoted connection (Ev.icmp, Ev.hist) is in the event for the reader only - it is   *)
+(* no ground for admitting an ICMPv6 packet, and none for refusing one an icmp6/ping6 service admits.                 *)
 InOK == /\ ~Ev.panic
-        /\ IF Ev.variant = "exthdr"
+        /\ IF Ev.variant = "icmp-quote"
+           THEN /\ Ev.proto = 58
+                \* handed on only if an icmp6/ping6 service admits `who` or the established-flow reading permits it ...
+                /\ Ev.totun => InboundToTun(Ev.svcs, Ev.isolate, Ev.who, 58, 0, "ok", Ev.flow, Ev.friends)
+                \* ... and a service that admits ICMPv6 from `who` admits this message (the flow reading is a permission only:
+                \* a router may well refuse an error message that has nothing to do with the echo the local host sent)
+                /\ InboundToTun(Ev.svcs, Ev.isolate, Ev.who, 58, 0, "ok", FALSE, Ev.friends) => Ev.totun
+           ELSE IF Ev.variant = "exthdr"
            THEN Ev.totun => InboundToTun(Ev.svcs, Ev.isolate, Ev.who, Ev.proto, Ev.dport, "ok", FALSE, Ev.friends)
            ELSE Ev.totun <=> InboundToTun(Ev.svcs, Ev.isolate, Ev.who, Ev.proto, Ev.dport, Ev.variant, Ev.flow, Ev.friends)
 OutOK == Ev.tomesh <=> OutboundToMesh(Ev.isolate, Ev.srcisme, Ev.dst)
